@@ -24,6 +24,8 @@ def _gen_opcodes(log):
 PROPS = {
     "C01": {
         "prefixes": ["c01"],
+        "select": lambda hs, tier, seed: hs if tier == "thorough" else
+        _rotate(_rotate(hs, tier, seed, "c01_read_", 70), tier, seed, "c01_hw_", 30),
         "generators": [_gen_read_walk],
         "assumptions": COMMON + [
             "inputs are byte strings of length <= N (N per harness, in `bounds`) and symbolic read arguments; longer inputs are outside the claim",
